@@ -215,12 +215,49 @@ SchedVerdict(c) ==
          /\ ~SeqEquiv(ParseRules(c.fmt), Values(r.ev), Values(base.ev))
       THEN <<P \o ":value differs from the reference value">> ELSE <<>>)
 
+\* ---- kind "extcmp" (C10) ---------------------------------------------------------
+(* The harness drives one consumer twice: with the stream as generated     *)
+(* (extended events, by-reference strings/keys) and with the expansion     *)
+(* into basic events.  The expansion the driver used must be the model's   *)
+(* (SFEvents!ExpandAll); both runs must produce documents that decode to   *)
+(* the value of the stream, and must leave the consumer in the same state  *)
+(* (depth accessors; the documents following the extended event are part   *)
+(* of the compared value).                                                 *)
+ExtCmpVerdict(c) ==
+  LET x == c.extra
+      cons == c.sub.consumer
+      in == c.stream
+      want == Values(in)
+      R == IF cons = "plain" THEN {} ELSE EncRules(cons, c.opts)
+      refusalOK(n) == cons = "json" /\ ~c.opts.ignf /\ n >= 1 /\ HasNonFin(in) IN
+  (IF c.outcome # "ok" THEN <<"C10:outcome:" \o c.outcome>> ELSE <<>>)
+  \o (IF ~SeqEquiv({}, Values(ExpandAll(in)), Values(x.streamB)) \/ ~CWellFormed(x.streamB, NValues(in))
+      THEN <<"INFRA:driver expansion differs from SFEvents!ExpandAll">> ELSE <<>>)
+  \o (IF c.outcome = "ok" /\ (x.errA # 0) # (x.errB # 0)
+      THEN <<"C10:one of the two runs failed and the other did not">> ELSE <<>>)
+  \o (IF c.outcome = "ok" /\ x.errA # 0 /\ x.errB # 0 /\ ~refusalOK(x.errA)
+      THEN <<"C10:consumer returned an error on a well-formed stream">> ELSE <<>>)
+  \o (IF c.outcome = "ok" /\ x.errA = 0 /\ x.errB = 0
+      THEN IF cons = "plain"
+           THEN (IF ~CWellFormed(x.evA, NValues(in)) THEN <<"C09:contract:" \o CRun(x.evA).why \o " (adapter expansion)">> ELSE <<>>)
+                \o (IF ~SeqEquiv(R, want, Values(x.evA)) THEN <<"C10:adapter expansion denotes a different value">> ELSE <<>>)
+           ELSE LET ra == Ref(cons, c.out, c.numtab)  rb == Ref(cons, x.outB, c.numtab) IN
+                (IF ra.class = "infra" \/ rb.class = "infra" THEN <<"INFRA:numtab">> ELSE <<>>)
+                \o (IF ra.class # "complete" \/ ra.done # NValues(in) THEN <<"C10:extended run wrote an invalid document (" \o ra.class \o " " \o ra.why \o ")">>
+                    ELSE IF rb.class # "complete" \/ rb.done # NValues(in) THEN <<"C10:expanded run wrote an invalid document">>
+                    ELSE IF ~SeqEquiv(R, want, Values(ra.ev)) THEN <<"C10:extended run denotes a different value than the stream">>
+                    ELSE IF ~SeqEquiv(R, want, Values(rb.ev)) THEN <<"C10:expanded run denotes a different value than the stream">>
+                    ELSE <<>>)
+                \o (IF x.depA # x.depB THEN <<"C10:consumer left in a different state (nesting depths differ)">> ELSE <<>>)
+      ELSE <<>>)
+
 \* ---- the trace machine ----------------------------------------------------------
 Verdict(c) ==
   CASE c.kind = "parse" -> ParseVerdict(c)
     [] c.kind \in {"encode", "roundtrip"} -> EncodeVerdict(c, IF c.kind = "encode" THEN "C07" ELSE "C01")
     [] c.kind = "transcode" -> TranscodeVerdict(c)
     [] c.kind = "sched" -> SchedVerdict(c)
+    [] c.kind = "extcmp" -> ExtCmpVerdict(c)
     [] OTHER -> <<"INFRA:unknown case kind">>
 
 Init == i = 1 /\ nfail = 0
